@@ -4,7 +4,7 @@
    interface{} arrives as a nil slice; the custom GobEncode/GobDecode of Swagger, Operation and Ref keep the rest).
    The rules are a model of a library, validated on every run against real gob round trips. *)
 From Coq Require Import List String Bool ZArith.
-From Spec Require Import Base.Json Codec.Types Codec.Gen_Tables Codec.Codec Codec.CodecFacts.
+From Spec Require Import Base.Json Codec.Types Codec.Gen_Tables Codec.Codec Codec.CodecFacts Codec.PayloadFacts Codec.TypedFacts.
 Import ListNotations.
 Local Open Scope string_scope.
 Local Open Scope Z_scope.
@@ -46,3 +46,13 @@ Example C14_refuted_empty_array :
   norm gen_env true (JObj [("example", JArr [])]) (TNamed "Schema") = ROk (JObj [("example", JNull)])
   /\ norm gen_env true (JObj [("x-a", JObj [("k", JArr [])])]) (TNamed "Schema") = ROk (JObj [("x-a", JObj [("k", JNull)])]).
 Proof. vm_compute. split; reflexivity. Qed.
+
+(* ---------- proved for every input: the scalar, slice and map field types (Codec/TypedFacts.v) ---------- *)
+(* a field whose Go type is built from string, bool, float64, int64, interface{} and StringOrArray by slices and
+   string-keyed maps (required, enum, consumes, produces, schemes, tags, scopes, examples, ...) is encoded after a gob
+   transport exactly as without it - for EVERY JSON value it was decoded from - provided no free-form payload in it holds an
+   empty array (the corner gob cannot transmit: F6b) *)
+Theorem C14_simple_field_types_survive_gob : forall t, simple_ty t -> forall j, gob_safe t j ->
+  norm gen_env true j t = norm gen_env false j t.
+Proof. exact simple_gob_id_gen. Qed.
+Print Assumptions C14_simple_field_types_survive_gob.
